@@ -18,3 +18,52 @@ func VerifRestore(data []byte) (SeatManager, error) {
 	}
 	return &s, nil
 }
+
+// VerifState is the plain-data form of a seat manager used by the harness to clone states quickly.
+type VerifState struct {
+	MaxSeat      int
+	Seats        []*SeatPlayer // index = seat id, nil = empty
+	DealerSeatID int
+	SBSeatID     int
+	BBSeatID     int
+	Rule         string
+	IsInit       bool
+}
+
+// VerifNew builds a seat manager holding a deep copy of st.
+func VerifNew(st *VerifState) SeatManager {
+	s := &seatManager{
+		MaxSeat:      st.MaxSeat,
+		SeatData:     make(map[int]*SeatPlayer, st.MaxSeat),
+		DealerSeatID: st.DealerSeatID,
+		SBSeatID:     st.SBSeatID,
+		BBSeatID:     st.BBSeatID,
+		Rule:         st.Rule,
+		IsInit:       st.IsInit,
+	}
+	for i := 0; i < st.MaxSeat; i++ {
+		if i < len(st.Seats) && st.Seats[i] != nil {
+			cp := *st.Seats[i]
+			s.SeatData[i] = &cp
+		} else {
+			s.SeatData[i] = nil
+		}
+	}
+	return s
+}
+
+// VerifGet copies the state of a seat manager out.
+func VerifGet(m SeatManager) *VerifState {
+	s, ok := m.(*seatManager)
+	if !ok {
+		return nil
+	}
+	st := &VerifState{MaxSeat: s.MaxSeat, Seats: make([]*SeatPlayer, s.MaxSeat), DealerSeatID: s.DealerSeatID, SBSeatID: s.SBSeatID, BBSeatID: s.BBSeatID, Rule: s.Rule, IsInit: s.IsInit}
+	for id, p := range s.SeatData {
+		if p != nil && id >= 0 && id < s.MaxSeat {
+			cp := *p
+			st.Seats[id] = &cp
+		}
+	}
+	return st
+}
